@@ -2,7 +2,7 @@
    specification, for every history. *)
 From Coq Require Import List NArith ZArith QArith Qcanon Bool Lia.
 From ACB Require Import Base.Outcome Base.QcExtra Base.Arith Model.Tx Model.Ledger Model.Sfl
-     Model.DeltaList Spec.AvgCost Proofs.Tactics.
+     Model.DeltaList Spec.AvgCost Proofs.Tactics Proofs.AllAfter.
 Import ListNotations.
 Local Open Scope Qc_scope.
 
@@ -34,7 +34,7 @@ Qed.
 Lemma set_latest_map st af v st' :
   set_latest exact st af v = Ok st' -> ps_map st' = aupdate (af_id af) v (ps_map st).
 Proof.
-  unfold set_latest. cbn [a_add a_sub exact bind].
+  unfold set_latest. rewrite all_after_exact. cbn [bind].
   destruct (negb (Bool.eqb _ _)); [discriminate|].
   destruct (negb (Qceqb _ _)); [discriminate|].
   intros H; inversion H; reflexivity.
@@ -64,7 +64,8 @@ Proof.
                         | n amount | post pre_ io] eqn:Ea; try discriminate Hs.
   - (* Buy *)
     bind_inv H. apply gez_add_exact in E as [-> _].
-    bind_inv H. apply gez_add_exact in E as [-> _].
+    rewrite all_after_exact in H. cbn [bind] in H.
+    bind_inv H. apply gez_unwrap_ok in E as [-> _].
     destruct (s_acb pre) as [old|] eqn:Eacb.
     + unfold local_value in H.
       bind_inv H. bind_inv E. apply gez_mul_exact in E0 as [-> _]. apply gez_mul_exact in E as [-> _].
@@ -93,7 +94,7 @@ Proof.
     cbn [a_mul a_div exact bind] in H.
     destruct (Qceqb_spec pre_ 0) as [|Hpre]; cbn [bind] in H; [discriminate|].
     bind_as H as nsh En. apply gez_unwrap_ok in En as [-> _].
-    cbn [a_sub a_add exact bind] in H. if_inv H. if_inv H.
+    rewrite all_after_exact in H. cbn [bind] in H. if_inv H. if_inv H.
     inversion H; subst d; cbn. unfold hold_of; cbn. repeat split; tuple_eq. field. exact Hpre.
 Qed.
 
@@ -106,7 +107,8 @@ Lemma sell_core_exact pre n price com rate crate c :
 Proof.
   unfold sell_core. cbn [a_sub exact bind]. intros H Hn.
   destruct (Qcltb_spec (s_sh pre - n) 0) as [|Hge]; [discriminate|].
-  destruct (Qcltb (s_all pre - n) 0); [discriminate|].
+  rewrite all_after_exact in H. cbn [bind] in H.
+  destruct (Qcltb _ 0); [discriminate|].
   assert (Hsh : 0 < s_sh pre) by (apply Qcnot_lt_le in Hge; qc_lra).
   unfold per_share_acb in H.
   destruct (s_acb pre) as [acb|] eqn:Eacb.
